@@ -57,6 +57,15 @@ def cases(tier, seed):
                                     continue
                                 out.append(dict(n=n, blocks=list(blocks), deg=deg, dtypes=dt, mode=mode, fd=fd if isinstance(fd, str) else list(fd),
                                                 solver=solver, total=3 if qk else 4, seed=seed))
+    # H_0 handed over as a dense (non-diagonal, complex Hermitian / non-symmetric) array or in csc format
+    for n in (5,):
+        for blocks in ((1,), (2,), (1, 1)):
+            for dt in ("rc", "cc", "rr"):
+                for mode in ("herm", "nonherm", "nonherm-RL"):
+                    for rep in ("dense", "csc"):
+                        out.append(dict(n=n, blocks=list(blocks), deg="none", dtypes=dt, mode=mode, fd=[], solver="direct",
+                                        total=3, seed=seed, h0repr=rep))
+            out.append(dict(n=n, blocks=list(blocks), deg="none", dtypes="rc", mode="herm", fd=[], solver="direct-opts2", total=3, seed=seed))
     # degenerate explicit pair with eigenvectors localised on disjoint, unequally large site sets
     for n in (6,) if qk else (6, 7):
         for blocks in ((2,), (2, 1), (3,)):
@@ -165,6 +174,10 @@ def run_case(case):
     explicit = [vecs(off[b], off[b + 1]) for b in range(nb)]
     complete = explicit + [vecs(nexp, n)]
     H = {(0,): sparse.csr_array(h0), (1,): terms[0], (2,): terms[1]}
+    if case.get("h0repr") == "dense":
+        H[(0,)] = np.array(h0)  # a dense, non-diagonal (in general non-symmetric) H_0
+    elif case.get("h0repr") == "csc":
+        H[(0,)] = sparse.csc_array(h0)
     kwargs = dict(hermitian=herm)
     if isinstance(case["fd"], str):
         # element mask on the first explicit block: eliminate a single pair, keep the rest (a non-transitive kept set)
@@ -178,6 +191,8 @@ def run_case(case):
     tol = 1e-8
     if case["solver"] == "direct-opts":
         ikw["solver_options"] = {"eigenvalue_atol": 1e-9}
+    elif case["solver"] == "direct-opts2":
+        ikw["solver_options"] = {"max_moments": 10000}  # an option of the other solver: ignored by the direct one
     elif case["solver"] == "kpm":
         ikw["direct_solver"] = False
         tol = 50 * 1e-5
@@ -194,6 +209,8 @@ def run_case(case):
     try:
         with warnings.catch_warnings(record=True) as wl:
             warnings.simplefilter("always")
+            given_options = ikw.get("solver_options")
+            options_before = None if given_options is None else {k_: (v_.copy() if hasattr(v_, "copy") else v_) for k_, v_ in given_options.items()}
             imp = block_diagonalize(H, subspace_eigenvectors=explicit, **ikw)
             exp = block_diagonalize({(0,): h0, (1,): terms[0], (2,): terms[1]}, subspace_eigenvectors=complete, **kwargs)
             Rc, Lc = Rm[:, nexp:], Lm[:, nexp:]
@@ -214,6 +231,10 @@ def run_case(case):
 
         return dict(violations=[dict(what=f"raises {type(e).__name__}: {str(e)[:160]} @ {traceback.format_exc().strip().splitlines()[-2][:90]} [{desc(case)}]", key=None)],
                     nontrivial=False, outcome="crash", sample=case)
+    if given_options is not None:
+        same_keys = set(given_options) == set(options_before)
+        if not same_keys or any(not np.array_equal(given_options[k_], options_before[k_]) for k_ in options_before):
+            V.append(f"the caller's solver_options dictionary was modified: {sorted(options_before)} -> {sorted(given_options)}")
     for (name, i, j, order), (vi, ve) in results.items():
         de = dense_of(ve, (sizes[i], sizes[j]))
         # embed the explicit result
